@@ -360,12 +360,16 @@ Definition zinit (cfg : config) (d : disk) : option sys2 :=
 (* ---- crash images ---- *)
 (* What a directory may look like after a crash in state z: the set of files is the
    current one (directory operations are durable and ordered); every file keeps at
-   least its synced prefix and at most what was written, possibly followed by zeros
-   up to the written length (size updated, data blocks lost). *)
+   least its synced prefix and at most what was written (cut at any byte), possibly
+   followed, from a record boundary on, by zeros up to the written length (size
+   updated, data blocks lost). *)
+Definition whole_records (bs : bytes) : Prop := exists rs, bs = concat (map enc_record rs).
 Definition file_image (f f' : file) : Prop :=
   f_id f' = f_id f /\
   exists n k : nat, (f_synced f <= N.of_nat n)%N /\ (n + k <= length (f_data f))%nat /\
-              f_data f' = firstn n (f_data f) ++ zeros k.
+              f_data f' = firstn n (f_data f) ++ zeros k /\
+              (* a zero-filled tail starts at a record boundary *)
+              (k = 0%nat \/ whole_records (firstn n (f_data f))).
 Definition crash_image (z : sys2) (d' : disk) : Prop := Forall2 file_image (z_disk z) d'.
 
 (* process crash: every completed write is kept *)
